@@ -238,10 +238,17 @@ Section ABF.
           (st_fold c s i) (st_eng c s i) (st_fj c i) (fst (st_clk s i)) true,
      mkOut (st_bin c i) (st_fabf c s i) (st_fapp c s i) (st_f c s i) (fst (st_clk s i)) (snd (st_clk s i)) (st_ft c s i)).
 
+  (* colvarbias_abf::init: bin := 0, force_bin := -1 (outside of every grid: no bin has been recorded yet) *)
   Definition abf_init (c : abf_cfg) : abf_state :=
     let nd := c_nd c in
-    mkSt (fun _ => 0) (fun _ => vzero nd) (repeat 0 nd) (repeat 0 nd)
+    mkSt (fun _ => 0) (fun _ => vzero nd) (repeat 0 nd) (repeat (-1) nd)
          (vzero nd) (vzero nd) (vzero nd) (vzero nd) (vzero nd) (vzero nd) 0 false.
+  (* the bias is defined (a second `config`) while the simulation is running: the engine has made steps,
+     the last one with step_relative = rel *)
+  Definition abf_init_late (c : abf_cfg) (rel : Z) : abf_state :=
+    let nd := c_nd c in
+    mkSt (fun _ => 0) (fun _ => vzero nd) (repeat 0 nd) (repeat (-1) nd)
+         (vzero nd) (vzero nd) (vzero nd) (vzero nd) (vzero nd) (vzero nd) rel true.
 
   Fixpoint abf_run_from (c : abf_cfg) (s : abf_state) (h : list abf_in) : abf_state * list abf_out :=
     match h with
